@@ -542,7 +542,7 @@ func intrinsicName(fn *ssa.Function) string {
 		return s
 	case strings.HasPrefix(s, "(*sync.Mutex)."), strings.HasPrefix(s, "(*sync.RWMutex)."), strings.HasPrefix(s, "(*sync.WaitGroup)."), strings.HasPrefix(s, "(*sync.Once)."), strings.HasPrefix(s, "(*sync.Cond)."):
 		return s
-	case s == "sort.Search":
+	case s == "sort.Search", s == "strings.Index":
 		return s
 	case s == "errors.New", s == "fmt.Errorf", s == "errors.Is", s == "github.com/gotid/god/lib/timex.Now", s == "github.com/gotid/god/lib/timex.Since", s == "time.Now", s == "fmt.Sprintf", s == "fmt.Sprint":
 		return s
@@ -608,6 +608,23 @@ func (x *Exec) intrinsic(st *State, fr *Frame, resInstr ssa.Instruction, name st
 	case strings.HasPrefix(name, "(*sync.WaitGroup)."):
 		m := name[strings.LastIndex(name, ".")+1:]
 		st.events = append(st.events, &Event{Kind: "wg", Name: "wg." + m, Callee: args[0], Args: args[1:], Index: len(st.events)})
+		return nil, true
+	case name == "strings.Index":
+		// Index(s, sub) for a constant sub: -1, or a position where sub occurs (character by character)
+		sv, sub := args[0].(Scalar), args[1].(Scalar)
+		lit, ok := x.sym.litOf(sub.T.S)
+		if !ok {
+			return nil, false
+		}
+		x.sym.declareFun("strat", []Sort{SStr, SInt}, SInt)
+		r := x.freshValue(st, "index", resT(0)).(Scalar)
+		conds := []Term{mk(SBool, "<=", intLit(0), r.T), mk(SBool, "<=", mk(SInt, "+", r.T, intLit(int64(len(lit)))), mk(SInt, "strlen", sv.T))}
+		for k := 0; k < len(lit); k++ {
+			conds = append(conds, eq(mk(SInt, "strat", sv.T, mk(SInt, "+", r.T, intLit(int64(k)))), intLit(int64(lit[k]))))
+		}
+		st.assume(or(eq(r.T, intLit(-1)), and(conds...)))
+		st.events = append(st.events, &Event{Kind: "call", Name: "Index", Callee: x.funcValue(fn, nil), Args: args, Results: []Value{r}, Index: len(st.events)})
+		set(r)
 		return nil, true
 	case name == "sort.Search":
 		// binary search postcondition, valid for every predicate f:
